@@ -45,7 +45,8 @@ pub mod verif {
     pub use super::c::{hash_key, ArtifactDescriptor, CCompilerImpl, ParsedArguments, CACHE_VERSION};
     pub mod gcc {
         pub use super::super::gcc::{
-            generate_compile_commands, language_to_gcc_arg, parse_arguments, ArgData, Gcc, ARGS,
+            generate_compile_commands, language_to_gcc_arg, parse_arguments, ArgData,
+            ExpandIncludeFile, Gcc, ARGS,
         };
     }
     pub mod clang {
